@@ -20,7 +20,7 @@ class Contract:
                  raises=(), locals=None, loops=None, defn=None, modifies=(), kind="function",
                  status="verify", impl_of=None, self_guard=None, defaults=None, ensures_on_raise=(),
                  attrs=None, is_lemma=False, note="", total=None, properties=(), inline=False, use_at_end=(), opaque=(),
-                 aliases_ok=(), use_at_start=(), cases=(), view=None, pure=False, payloads=None):
+                 aliases_ok=(), use_at_start=(), cases=(), view=None, pure=False, payloads=None, ghost_asserts=()):
         self.key = key
         self.module = module
         self.qualname = qualname or key
@@ -50,6 +50,7 @@ class Contract:
         self.aliases_ok = set(aliases_ok)
         self.use_at_start = list(use_at_start)
         self.cases = list(cases)              # Boolean parameter fields to split on (verified once per valuation)
+        self.ghost_asserts = list(ghost_asserts)  # proof hints: asserted (as obligations) and then assumed at a normal return, on the paths where their locals exist
         self.payloads = payloads or {}        # exception name -> spec expression of the message (args[0]) of the raised exception
         self.pure = pure                      # result is a function of the arguments: every call denotes the same uninterpreted application
         self.view = view                      # None: names opaque; 'string': names are strings (PYVC_NODE=str)
@@ -648,7 +649,42 @@ class Registry:
         return [(st, V(("dict", kt, vt), (dom, val)))]
 
     def next_gen(self, eng, node, st):
-        raise OutOfSubset("next(generator)")
+        """next(x for x in <Seq> if cond(x)): the FIRST element in sequence order that satisfies the filter; StopIteration if none does."""
+        gen = node.args[0]
+        if len(gen.generators) != 1 or gen.generators[0].is_async or not isinstance(gen.generators[0].target, ast.Name) \
+                or not (isinstance(gen.elt, ast.Name) and gen.elt.id == gen.generators[0].target.id):
+            raise OutOfSubset("next(generator) of this shape")
+        g = gen.generators[0]
+        seq = eng.ev1(g.iter, st)
+        if seq.t[0] != "seq":
+            raise OutOfSubset(f"next(generator) over {seq.t} (order matters: needs a Seq)")
+        et = seq.t[1]
+
+        def cond_at(term_v):
+            saved = dict(eng.bound)
+            eng.bound[g.target.id] = term_v
+            eng.qdepth = getattr(eng, "qdepth", 0) + 1
+            try:
+                return zand(*[eng.truth(eng.ev1(c, st)) for c in g.ifs])
+            finally:
+                eng.bound = saved
+                eng.qdepth -= 1
+        n = z3.Length(seq.x)
+        j = z3.Int(fresh_name("j"))
+        elem_j = from_term(et, seq.x[j])
+        none_matches = z3.ForAll([j], z3.Implies(z3.And(j >= 0, j < n), z3.Not(cond_at(elem_j))))
+        out = []
+        s_stop = st.fork()
+        s_stop.assume(none_matches)
+        if feasible(s_stop):
+            eng.do_raise(s_stop, "StopIteration", getattr(node, "lineno", 0))
+        i = z3.Int(fresh_name("first"))
+        elem_i = from_term(et, seq.x[i])
+        st.assume(z3.And(i >= 0, i < n))
+        st.assume(cond_at(elem_i))
+        st.assume(z3.ForAll([j], z3.Implies(z3.And(j >= 0, j < i), z3.Not(cond_at(elem_j)))))
+        out.append((st, elem_i))
+        return out
 
     # ------------------------------------------------------------------ methods
     def call_method(self, eng, st, recv: V, attr, args, kwargs, node, is_property=False, recv_expr=None):
